@@ -99,9 +99,12 @@ func checkC15(c *Ctx, r *Report) {
 		}
 		dmemo[k] = nil
 		ps, pe := h.Params[sinkIdx], h.Params[evtIdx]
-		res := countIn(h, nil, nil,
-			func(v ssa.Value) bool { return v == ssa.Value(ps) || isParamCellLoad(c, v, ps) },
-			func(v ssa.Value) bool { return v == ssa.Value(pe) || isParamCellLoad(c, v, pe) }, depth)
+		var res pathResult
+		asRoot(h, func() {
+			res = countIn(h, nil, nil,
+				func(v ssa.Value) bool { return v == ssa.Value(ps) || isParamCellLoad(c, v, ps) },
+				func(v ssa.Value) bool { return v == ssa.Value(pe) || isParamCellLoad(c, v, pe) }, depth)
+		})
 		dmemo[k] = &res
 		return res
 	}
@@ -316,7 +319,7 @@ func checkC15(c *Ctx, r *Report) {
 	nOrder := 0
 	for _, f := range c.FnsOfPkg(ebP) {
 		lf := computeLockFlow(f, heldSet{})
-		allInstrs(f, func(in ssa.Instruction) {
+		allInstrsIn(f, func(in ssa.Instruction) {
 			ci, ok := in.(ssa.CallInstruction)
 			if !ok {
 				return
@@ -503,7 +506,7 @@ func checkC15(c *Ctx, r *Report) {
 					if idx == nil {
 						return false
 					}
-					matched[idx] = true
+					matched[resolveLoad(idx)] = true
 					return (si == 0) == ((bo.Op == token.EQL) != neg)
 				}
 				// (b) idx := slices.IndexFunc(n.sinks, pred), pred answering true exactly for the sink on s.ch
@@ -537,7 +540,7 @@ func checkC15(c *Ctx, r *Report) {
 				r3.guard(body, "write to n.sinks", writes, "the sink on s.ch was found", anyEdge(eqA, found), nil)
 				okIdx := false
 				for _, ix := range idxOfStore {
-					if matched[ix] {
+					if matched[ix] || matched[resolveLoad(ix)] {
 						okIdx = true
 					}
 				}
@@ -590,7 +593,7 @@ func checkC15(c *Ctx, r *Report) {
 				differ := eqEdge(isElemCh, isCh, false)
 				r3.guard(f, "keep a sink", keeps, "sink.ch != ch", differ, nil)
 				var from []CFGEdge
-				for _, b := range f.Blocks {
+				for _, b := range blocksDeep(f) {
 					for sidx := range b.Succs {
 						if differ(b, sidx) {
 							from = append(from, CFGEdge{b, sidx})
@@ -699,7 +702,7 @@ func checkC15(c *Ctx, r *Report) {
 			}
 			nKL++
 			assume := map[ssa.Value]bool{}
-			allInstrs(f, func(x ssa.Instruction) {
+			allInstrsIn(f, func(x ssa.Instruction) {
 				if v, ok := x.(ssa.Value); ok && isLoadOfField(nodeT+".keepLast")(v) {
 					assume[v] = true
 				}
@@ -920,7 +923,7 @@ type ordGuard struct {
 // an edge reachable only past the guard, or is itself a comparison whose
 // truth establishes the guard.
 func flagGuarded(c *Ctx, f *ssa.Function, target ssa.Instruction, guards []ordGuard) bool {
-	for _, b := range f.Blocks {
+	for _, b := range blocksDeep(f) {
 		ifi := ifOf(b)
 		if ifi == nil {
 			continue
@@ -1014,9 +1017,11 @@ func receivesFrom(c *Ctx, g *ssa.Function, isCh func(ssa.Value) bool, depth int)
 			for i, a := range x.Call.Args {
 				if i < len(h.Params) && isCh(strip2(a)) {
 					p := h.Params[i]
-					if receivesFrom(c, h, func(v ssa.Value) bool { return v == ssa.Value(p) || isParamCellLoad(c, v, p) }, depth+1) {
-						found = true
-					}
+					asRoot(h, func() {
+						if receivesFrom(c, h, func(v ssa.Value) bool { return v == ssa.Value(p) || isParamCellLoad(c, v, p) }, depth+1) {
+							found = true
+						}
+					})
 				}
 			}
 		}
